@@ -24,6 +24,7 @@ mod c20;
 mod coqfmt;
 mod export;
 mod progen;
+mod mpcgen;
 mod gen;
 mod out;
 mod rng;
